@@ -57,6 +57,386 @@ def count_tests(g, counted):
 
 
 # ------------------------------------------------------------------------------
+# R02.1, chunk form: the cores / gpus of a slot are not picked one by one but
+# cut from a list that was collected beforehand,
+#     pool  = [i for i, c in enumerate(node['cores']) if c == FREE]
+#     chunk = pool[k:k + n] ; slot['cores'] = [RO(index=i) for i in chunk]
+# A slice past the end of the pool is silently short: the number of elements
+# is only bounded, not fixed, by the slice.
+#
+_CHUNK_KINDS = ('cores', 'gpus')
+_ELEMENTWISE = ('list', 'tuple', 'sorted', 'reversed')
+
+
+class Chunk:
+    """kind; sink (ast of the statement / dict display that stores the value
+    as cores/gpus of a slot); sink_text (unparsed receiver or None); slice
+    (the ast.Subscript); snode (cfg node that evaluates the slice); pool (name
+    of the sliced list); lower / upper (ast or None); names (locals that hold
+    the chunk or a list derived element by element from it)"""
+
+    def __init__(self, **kw):
+        self.__dict__.update(kw)
+
+
+def _empty_list(e):
+    return (isinstance(e, ast.List) and not e.elts) or (
+        isinstance(e, ast.Call) and dotted(e.func) == 'list' and
+        not e.args and not e.keywords)
+
+
+def _chunk_source(f, g, smap, expr, at, names, depth=0):
+    """follow `expr` (evaluated at cfg node `at`) backwards through
+    element-by-element derivations - a comprehension or a loop-and-append
+    over it, list(), sorted(), a plain copy - to a slice `pool[a:b]`; returns
+    (ast.Subscript, cfg node) or None.  Every step keeps the number of
+    elements, so the length of the slice is the length of `expr`."""
+    if depth > 8 or at is None:
+        return None
+    if isinstance(expr, ast.Subscript) and isinstance(expr.slice, ast.Slice) \
+            and isinstance(expr.value, ast.Name):
+        return expr, at
+    if isinstance(expr, (ast.ListComp, ast.GeneratorExp)) and \
+            len(expr.generators) == 1 and not expr.generators[0].ifs:
+        return _chunk_source(f, g, smap, expr.generators[0].iter, at, names,
+                             depth + 1)
+    if isinstance(expr, ast.Call) and dotted(expr.func) in _ELEMENTWISE and \
+            len(expr.args) == 1:
+        return _chunk_source(f, g, smap, expr.args[0], at, names, depth + 1)
+    if isinstance(expr, ast.Name):
+        defs = reaching_defs(g, expr.id, at.id)
+        if len(defs) != 1 or defs[0][1] is None:
+            return None
+        dn, v = defs[0]
+        if _empty_list(v):
+            # x = list() ; for t in SRC: x.append(elt)
+            fills = [c for c in calls_in(f.node)
+                     if isinstance(c.func, ast.Attribute) and
+                     c.func.attr == 'append' and
+                     isinstance(c.func.value, ast.Name) and
+                     c.func.value.id == expr.id and id(c) in smap]
+            if len(fills) != 1:
+                return None
+            P = smap[id(fills[0])]
+            if not P.loops:
+                return None
+            H = g.nodes[P.loops[-1]]
+            if H.kind != 'for' or len(H.ast.body) != 1 or \
+                    H.ast.orelse or not isinstance(H.ast.body[0], ast.Expr) \
+                    or H.ast.body[0].value is not fills[0]:
+                return None
+            got = _chunk_source(f, g, smap, H.ast.iter, H, names, depth + 1)
+        else:
+            got = _chunk_source(f, g, smap, v, dn, names, depth + 1)
+        if got:
+            names.add(expr.id)
+        return got
+    return None
+
+
+def chunk_sites(f, g):
+    """[Chunk]: values stored as the cores / gpus of a slot which are cut
+    from a list by a slice"""
+    smap = I.stmt_node_map(g)
+    sinks = []
+    for n in walk(f.node):
+        if isinstance(n, ast.Assign) and id(n.value) in smap:
+            for t in n.targets:
+                if isinstance(t, ast.Subscript) and \
+                        isinstance(t.slice, ast.Constant) and \
+                        t.slice.value in _CHUNK_KINDS:
+                    sinks.append((t.slice.value, n.value, n, unparse(t)))
+        elif isinstance(n, ast.Dict):
+            for k, v in zip(n.keys, n.values):
+                if isinstance(k, ast.Constant) and k.value in _CHUNK_KINDS \
+                        and id(v) in smap:
+                    sinks.append((k.value, v, n, None))
+        elif isinstance(n, ast.Call) and dotted(n.func) == 'Slot':
+            for kw in n.keywords:
+                if kw.arg in _CHUNK_KINDS and id(kw.value) in smap:
+                    sinks.append((kw.arg, kw.value, n, None))
+    out = []
+    for kind, v, sink, text in sinks:
+        names = set()
+        got = _chunk_source(f, g, smap, v, smap[id(v)], names)
+        if not got:
+            continue
+        sl, snode = got
+        if sl.slice.step is not None:
+            raise AnalysisError('UNRECOGNISED-IDIOM %s: the %s of a slot are '
+                                'cut with a stepped slice `%s`'
+                                % (f.where, kind, short(sl, 60)))
+        out.append(Chunk(kind=kind, sink=sink, sink_text=text, slice=sl,
+                         snode=snode, pool=sl.value.id, lower=sl.slice.lower,
+                         upper=sl.slice.upper, names=names))
+    return out
+
+
+def _is_zero_const(e):
+    return e is None or (isinstance(e, ast.Constant) and e.value == 0 and
+                         not isinstance(e.value, bool))
+
+
+def chunk_width(c):
+    """the expression n of `pool[a:a + n]` / `pool[:n]` / `pool[0:n]`"""
+    a, b = c.lower, c.upper
+    if b is None:
+        return None
+    if _is_zero_const(a):
+        return b
+    if isinstance(b, ast.BinOp) and isinstance(b.op, ast.Add):
+        if unparse(b.left) == unparse(a):
+            return b.right
+        if unparse(b.right) == unparse(a):
+            return b.left
+    return None
+
+
+def _linear(e, sign=1, out=None):
+    """linear form {term text: integer coefficient} of an arithmetic
+    expression ('1' is the constant term); products, calls, names are terms"""
+    out = {} if out is None else out
+    if isinstance(e, ast.BinOp) and isinstance(e.op, (ast.Add, ast.Sub)):
+        _linear(e.left, sign, out)
+        _linear(e.right, sign if isinstance(e.op, ast.Add) else -sign, out)
+    elif isinstance(e, ast.UnaryOp) and isinstance(e.op, ast.USub):
+        _linear(e.operand, -sign, out)
+    elif isinstance(e, ast.Constant) and isinstance(e.value, int) and \
+            not isinstance(e.value, bool):
+        out['1'] = out.get('1', 0) + sign * e.value
+    elif e is not None:
+        k = unparse(e)
+        out[k] = out.get(k, 0) + sign
+    return {k: v for k, v in out.items() if v}
+
+
+def _lin_sub(a, b):
+    out = dict(a)
+    for k, v in b.items():
+        out[k] = out.get(k, 0) - v
+    return {k: v for k, v in out.items() if v}
+
+
+def _lin_neg(a):
+    return {k: -v for k, v in a.items()}
+
+
+def remaining_tests(g, c, W):
+    """tests that compare what is left of the pool with the width of the
+    chunk: `len(pool) - a < n`, `a + n > len(pool)`, `len(pool) >= n` (when
+    the slice starts at 0) ...  Returns ([(node id, label of the edge taken
+    when a full chunk is left)], [ids of tests that compare len(pool) with n
+    alone although the slice starts at a cursor: they speak about the first
+    chunk only])"""
+    full = _lin_sub(_lin_sub(_linear(ast.parse('len(%s)' % c.pool,
+                                               mode='eval').body),
+                             _linear(None if _is_zero_const(c.lower)
+                                     else c.lower)), _linear(W))
+    first = _lin_sub(_linear(ast.parse('len(%s)' % c.pool, mode='eval').body),
+                     _linear(W))
+    enough, first_only = [], []
+    for n in g.nodes:
+        if n.kind != 'test' or not isinstance(n.ast, ast.Compare) or \
+                len(n.ast.ops) != 1:
+            continue
+        op = type(n.ast.ops[0])
+        diff = _lin_sub(_linear(n.ast.left), _linear(n.ast.comparators[0]))
+        # diff OP 0
+        if diff == full:
+            lab = {ast.Lt: 'F', ast.GtE: 'T'}.get(op)
+        elif diff == _lin_neg(full):
+            lab = {ast.Gt: 'F', ast.LtE: 'T'}.get(op)
+        elif diff in (first, _lin_neg(first)):
+            first_only.append(n.id)
+            continue
+        else:
+            continue
+        if lab:
+            enough.append((n.id, lab))
+    return enough, first_only
+
+
+def _writers(g, names):
+    """cfg nodes that bind or mutate one of the plain names"""
+    out = set()
+    for n in g.stmt_nodes():
+        if n.kind == 'for':
+            if set(stores_in_target(n.ast.target)) & names:
+                out.add(n.id)
+            continue
+        if n.kind != 'stmt':
+            continue
+        a = n.ast
+        tg = []
+        if isinstance(a, ast.Assign):
+            tg = a.targets
+        elif isinstance(a, (ast.AugAssign, ast.AnnAssign)):
+            tg = [a.target]
+        elif isinstance(a, ast.Delete):
+            tg = a.targets
+        for t in tg:
+            for e in I._flat(t):
+                if root_name(e) in names:
+                    out.add(n.id)
+        for c in calls_in(a):
+            if isinstance(c.func, ast.Attribute) and (
+                    c.func.attr in I.MUTATING or
+                    c.func.attr in ('pop', 'remove', 'clear', 'sort',
+                                    'reverse')) and \
+                    root_name(c.func.value) in names:
+                out.add(n.id)
+    return out
+
+
+def _length_derived(f, pool):
+    """locals whose value is computed from len(pool) (explicit data flow
+    through assignments to plain names only)"""
+    def reads_len(e, derived):
+        for x in walk(e):
+            if isinstance(x, ast.Call) and dotted(x.func) == 'len' and \
+                    x.args and isinstance(x.args[0], ast.Name) and \
+                    x.args[0].id == pool:
+                return True
+            if isinstance(x, ast.Name) and x.id in derived:
+                return True
+        return False
+    derived = set()
+    for _ in range(8):
+        before = len(derived)
+        for n in walk(f.node):
+            v = tg = None
+            if isinstance(n, ast.Assign):
+                v, tg = n.value, n.targets
+            elif isinstance(n, (ast.AugAssign, ast.AnnAssign)) and \
+                    n.value is not None:
+                v, tg = n.value, [n.target]
+            if v is None or not reads_len(v, derived):
+                continue
+            for t in tg:
+                for e in I._flat(t):
+                    if isinstance(e, ast.Name):
+                        derived.add(e.id)
+        if len(derived) == before:
+            break
+    return derived, reads_len
+
+
+def check_chunk(prog, rep, rid, K, f, g, c, appends, res):
+    from .c01 import controlling
+    A = {a.id for a in appends}
+    where = '%s[%s:%s]' % (c.pool, unparse(c.lower) if c.lower else '',
+                           unparse(c.upper) if c.upper else '')
+    W = chunk_width(c)
+    if W is None:
+        raise AnalysisError('UNRECOGNISED-IDIOM %s: the %s of a slot are cut '
+                            'as `%s`: the width of the slice is not of the '
+                            'form [a:a + n]' % (f.where, c.kind, where))
+    wt = unparse(W)
+    wh = unparse(_hoisted(g, W, c.snode.id)[0])
+    rep.ok(rid, f, '%s: the %s of a slot are the chunk %s of a collected '
+           'list, %s wide' % (K.name, c.kind, where, wt), f.loc(c.slice))
+    # tests on the length of the chunk (or of a list derived element by
+    # element from it, or of the slot entry it is stored in)
+    counted = {'len:' + x for x in c.names}
+    if c.sink_text:
+        counted.add('len:' + c.sink_text)
+    reached, weak = [], []
+    for n, lab in count_tests(g, counted):
+        cmp_ = n.ast
+        le = _len_of(cmp_.left)
+        b = cmp_.comparators[0] if le is not None and 'len:' + le in counted \
+            else cmp_.left
+        if lab and (unparse(b) == wt or
+                    unparse(_hoisted(g, b, n.id)[0]) == wh):
+            reached.append((n.id, lab))
+        else:
+            weak.append(n)
+    for n in g.nodes:
+        if n.kind == 'test' and isinstance(n.ast, ast.Name) and \
+                n.ast.id in c.names:
+            weak.append(n)
+    S = c.snode
+    short_path = set()
+    for e in g.succ[S.id]:
+        if e.label != 'exc':
+            short_path |= g.reachable(e.dst, skip_nodes={S.id},
+                                      skip_edges=reached)
+    ok = not (A & short_path)
+    how = 'past a test that the chunk holds %s elements' % wt
+    first_only = []
+    if not ok:
+        # what is left of the pool is compared with the width before the
+        # slice is taken, and nothing the comparison reads changes in between
+        enough, first_only = remaining_tests(g, c, W)
+        if enough:
+            inval = _writers(g, {c.pool} | {x.id for x in walk(c.slice.slice)
+                                            if isinstance(x, ast.Name)})
+            stale = False
+            for w in inval | {g.entry.id}:
+                for e in g.succ[w]:
+                    if e.label == 'exc':
+                        continue
+                    if e.dst == S.id or (e.dst not in inval and S.id in
+                            g.reachable(e.dst, skip_nodes=inval - {S.id},
+                                        skip_edges=enough)):
+                        stale = True
+            if not stale:
+                ok = True
+                how = ('after a test that the list still holds %s elements '
+                       'past the start of the slice' % wt)
+    if ok:
+        rep.ok(rid, f, '%s: the slot is appended only %s' % (K.name, how),
+               f.loc(c.slice))
+        return
+    # nothing recognised guarantees a full chunk.  Is there anything else
+    # that relates the length of the pool to the loop (a bound computed by
+    # floor division, say)?  Then the recogniser cannot decide.
+    derived, reads_len = _length_derived(f, c.pool)
+    known = {i for i, l in reached} | {n.id for n in weak} | set(first_only)
+    moving = not _is_zero_const(c.lower) and not isinstance(c.lower,
+                                                            ast.Constant)
+    other = []
+    for n, lab in controlling(g, A):
+        if n.id in known and (moving or n.id not in first_only):
+            continue
+        expr = n.ast.iter if n.kind == 'for' else n.ast
+        if n.kind == 'for' and (n.ast.iter is c.slice or (
+                isinstance(n.ast.iter, ast.Name) and
+                n.ast.iter.id in c.names)):
+            continue
+        if n.kind == 'test' and isinstance(expr, ast.Name) and \
+                expr.id == c.pool:
+            continue            # truth of the pool: at least one element
+        if reads_len(expr, derived):
+            other.append(n)
+    if other:
+        raise AnalysisError(
+            'UNRECOGNISED-IDIOM %s: the %s of a slot are cut as %s and no '
+            'test on the length of the chunk dominates %s.append, but %s '
+            'relate(s) the length of the list to the search in a way the '
+            'recogniser cannot decide' % (
+                f.where, c.kind, where, res,
+                [short(n.ast.iter if n.kind == 'for' else n.ast, 50)
+                 for n in other]))
+    wk = ''
+    if weak:
+        wk = ' (the test `%s` on the chunk lets a short, non-empty chunk ' \
+             'through)' % short(weak[0].ast, 50)
+    elif first_only:
+        wk = ' (`%s` only tells that the first chunk is complete)' \
+             % short(g.nodes[first_only[0]].ast, 50)
+    rep.bad(rid, f, '%s:%s:chunk-short' % (K.name, c.kind),
+            '%s._find_resources: the %s of a slot are cut as %s; a slice '
+            'past the end of the list is silently shorter than %s, and the '
+            'slot is appended to %s without a test that the chunk reached '
+            'that length%s' % (K.name, c.kind, where, wt, res, wk),
+            f.loc(c.slice),
+            history='2 nodes x 8 cores, cores 0-2 of node 0 busy, request of '
+            '2 ranks x 3 cores: the second rank is granted cores [6, 7] of '
+            'node 0 (2 instead of 3)')
+
+
+# ------------------------------------------------------------------------------
 # R02.1  count discipline of the per-node search
 #
 def r02_1(prog, rep, rid='R02.1'):
@@ -69,8 +449,19 @@ def r02_1(prog, rep, rid='R02.1'):
         rep.saw(f)
         picks = pick_sites(prog, f, g, d, None)
         A = [a.id for a in appends]
+        chunks = chunk_sites(f, g)
+        pools = {c.pool for c in chunks}
+        for c in chunks:
+            check_chunk(prog, rep, rid, K, f, g, c, appends, res)
         for P, call, kind in picks:
             recv = unparse(call.func.value)
+            if root_name(call.func.value) in pools:
+                # collected into a list the slots are cut from: how many
+                # elements a slot gets is decided where it is cut
+                rep.ok(rid, f, '%s: %s collects the list the %s of the slots '
+                       'are cut from' % (K.name, short(call, 40), kind),
+                       f.loc(call))
+                continue
             rroot = root_name(call.func.value)
             counted = {'len:' + recv}
             cts = count_tests(g, counted)
